@@ -6,8 +6,12 @@
  * - line reading and verb matching - is the popup_* / C05 resume obligations' subject).
  * The message table m[]/numm is built here (getlist/maildir_scan: obligation getlist).
  *
+ * The K commands continue an arbitrary session: the deletion marks at the start are
+ * symbolic (every subset is reachable by DELEs), so K = 1 is the inductive step of the
+ * session invariant "marks = model, table untouched, nothing removed before QUIT" and
+ * covers sessions of any length; K = 2, 3 re-check command sequences directly.
  * Symbolic: verb of every step, 3 argument bytes of every step, for each message:
- * new/ or cur/, one character of its name, its size (0..999), whether open/unlink fail.
+ * new/ or cur/, one character of its name, whether open/unlink fail; sizes concrete.
  *
  * Reference model (property C19, RFC 1939, qmail-pop3d(8)):
  *   numbers 1..2 name the same two files for the whole session;
@@ -31,18 +35,19 @@
 #endif
 #define NM 2
 #define AL 3
-#define OUTMAX 64
+#define OUTMAX 64         /* <= 64: cbmc keeps such arrays field-sensitive; QUIT with one failing unlink: 45 + 6 */
 
 enum { V_QUIT, V_STAT, V_LIST, V_UIDL, V_DELE, V_RETR, V_RSET, V_LAST, V_TOP, V_NOOP, NVERB };
 static const char *const vname[NVERB] = { "quit", "stat", "list", "uidl", "dele", "retr", "rset", "last", "top", "noop" };
 
 unsigned char verb[K];
-unsigned char args[K][AL];
+unsigned char args[K * AL];
 unsigned char isnew[NM];
 unsigned char namec[NM];
-unsigned char sized[NM][3];        /* decimal digits of the size, most significant first */
 unsigned char openfail[K];
 unsigned char unlinkfail[NM];
+unsigned char del0[NM];            /* marks at the start: the K commands continue an arbitrary session */
+unsigned char last0;
 
 static char fn[NM][12];
 static struct message mtab[NM];
@@ -64,9 +69,9 @@ void sym_inputs(void)
 #ifdef REPLAY
 #include "replay_inputs.inc"
 #else
+  SYM_ARR(del0); SYM(last0);
   SYM_ARR(verb); SYM_ARR(isnew); SYM_ARR(namec); SYM_ARR(openfail); SYM_ARR(unlinkfail);
-  { unsigned i; for (i = 0; i < K; i++) SYM_ARR(args[i]); }
-  { unsigned i; for (i = 0; i < NM; i++) SYM_ARR(sized[i]); }
+  SYM_ARR(args);
 #endif
 }
 
@@ -80,11 +85,19 @@ static int streq(const char *a, const char *b)
 static void e(unsigned char c) { if (explen < OUTMAX) expb[explen] = c; ++explen; }
 static void es(const char *s) { unsigned int i; for (i = 0; i < 16; ++i) { if (!s[i]) break; e((unsigned char) s[i]); } }
 
+/* sizes are concrete per query (SZ0, SZ1: grid), no 64-bit division on symbolic values */
+#ifndef SZ0
+#define SZ0 7
+#endif
+#ifndef SZ1
+#define SZ1 120
+#endif
 static void e_size(int i)          /* decimal, no leading zeros */
 {
-  if (sized[i][0]) e('0' + sized[i][0]);
-  if (sized[i][0] || sized[i][1]) e('0' + sized[i][1]);
-  e('0' + sized[i][2]);
+  unsigned long v = i ? SZ1 : SZ0, p = 1;
+  unsigned int k;
+  for (k = 0; k < 20; ++k) { if (v / p < 10) break; p *= 10; }
+  for (k = 0; k < 20; ++k) { e((unsigned char) ('0' + (v / p) % 10)); if (p == 1) break; p /= 10; }
 }
 static void e_uid(int i) { e(namec[i]); e('a' + i); }   /* file name after the directory, up to ':' */
 static void e_entry(int i, int uidl) { e('1' + i); e(' '); if (uidl) e_uid(i); else e_size(i); e('\r'); e('\n'); }
@@ -182,7 +195,7 @@ void vf__exit(int status)
         "QUIT is answered +OK");
   if (del[0] && !del[1] && isnew[1]) WITNESS("quit_unlinks_1_renames_2");
   if (del[0] && del[1] && step == K - 1) WITNESS("quit_unlinks_both");
-  if (!del[0] && !del[1] && step == K - 1 && verb[0] == V_DELE && verb[1] == V_RSET) WITNESS("dele_rset_quit_keeps_all");
+  if (K >= 3 && !del0[0] && !del0[1] && !del[0] && !del[1] && step == K - 1 && verb[0] == V_DELE && verb[K - 2] == V_RSET) WITNESS("dele_rset_quit_keeps_all");
   WITNESS("quit");
   PATH_END();
 #ifdef VERIF_CBMC
@@ -216,6 +229,14 @@ static void dispatch(const char *name, char *arg)
   CHECK(0, "verb is in the table");
 }
 
+/* case split (DESIGN 3): with -DONLY=v the query covers the sessions whose LAST command is
+ * verb v (earlier commands stay symbolic); the plan issues one query per v */
+#ifdef ONLY
+#define WANT(x) ((x) == ONLY || step + 1 < K)
+#else
+#define WANT(x) 1
+#endif
+
 static void one_step(void)
 {
   unsigned int v = verb[step];
@@ -227,22 +248,23 @@ static void one_step(void)
   for (i = 0; i < NM; ++i) before[i] = del[i];
   outlen = 0; flushed = 0; explen = 0; nopen_step = 0; cur_open_expected = -1;
 
-  if (v == V_QUIT) { in_quit = 1; dispatch("quit", arg); CHECK(0, "QUIT does not return"); return; }
-  if (v == V_STAT) { dispatch("stat", arg); CHECK(reply_ok(), "STAT is answered +OK"); }
-  else if (v == V_LAST) { dispatch("last", arg); CHECK(reply_ok(), "LAST is answered +OK"); }
-  else if (v == V_NOOP) { dispatch("noop", arg); CHECK(reply_ok(), "NOOP is answered +OK"); }
-  else if (v == V_RSET) {
+  if (WANT(V_QUIT) && v == V_QUIT) { in_quit = 1; dispatch("quit", arg); CHECK(0, "QUIT does not return"); return; }
+  if (WANT(V_STAT) && v == V_STAT) { dispatch("stat", arg); CHECK(reply_ok(), "STAT is answered +OK"); }
+  else if (WANT(V_LAST) && v == V_LAST) { dispatch("last", arg); CHECK(reply_ok(), "LAST is answered +OK"); }
+  else if (WANT(V_NOOP) && v == V_NOOP) { dispatch("noop", arg); CHECK(reply_ok(), "NOOP is answered +OK"); }
+  else if (WANT(V_RSET) && v == V_RSET) {
     dispatch("rset", arg);
     CHECK(reply_ok(), "RSET is answered +OK");
     for (i = 0; i < NM; ++i) del[i] = 0;
   }
-  else if (v == V_DELE) {
+  else if (WANT(V_DELE) && v == V_DELE) {
     dispatch("dele", arg);
     if (valid) { CHECK(reply_ok(), "C19: DELE of a valid message is answered +OK"); del[n - 1] = 1; }
     else CHECK(reply_err(), "C19: zero, out-of-range, non-numeric or already-deleted number is refused");
   }
-  else if (v == V_LIST || v == V_UIDL) {
-    int uidl = (v == V_UIDL);
+  else if ((WANT(V_LIST) && v == V_LIST) || (WANT(V_UIDL) && v == V_UIDL)) {
+    int uidl;
+    if (!WANT(V_LIST)) uidl = 1; else if (!WANT(V_UIDL)) uidl = 0; else uidl = (v == V_UIDL);
     if (uidl) dispatch("uidl", arg); else dispatch("list", arg);
     if (!*arg) {
       for (i = 0; i < NM; ++i) if (!del[i]) e_entry(i, uidl);
@@ -254,9 +276,10 @@ static void one_step(void)
       CHECK(whole_matches() && flushed == outlen, "C19: LIST/UIDL n shows size / unique id of message n");
     } else CHECK(reply_err(), "C19: LIST/UIDL with a bad number is refused");
   }
-  else {   /* RETR, TOP */
+  else if ((WANT(V_RETR) && v == V_RETR) || (WANT(V_TOP) && v == V_TOP)) {
     if (valid) cur_open_expected = n - 1;
-    if (v == V_RETR) dispatch("retr", arg); else dispatch("top", arg);
+    if (!WANT(V_TOP)) dispatch("retr", arg); else if (!WANT(V_RETR)) dispatch("top", arg);
+    else if (v == V_RETR) dispatch("retr", arg); else dispatch("top", arg);
     if (valid && !openfail[step]) {
       CHECK(nopen_step == 1, "RETR/TOP opens the message");
       es("\r\n.\r\n");
@@ -267,6 +290,7 @@ static void one_step(void)
       if (valid) WITNESS("retr_file_vanished");
     }
   }
+  else { ASSUME(0); }      /* verb outside this query's case */
   /* state after the command: marks as in the model, table untouched */
   for (i = 0; i < NM; ++i) {
     CHECK((m[i].flagdeleted != 0) == del[i], "C19: deletion marks = DELE'd and not RSET (refused commands change nothing)");
@@ -287,18 +311,20 @@ void vmain(void)
     unsigned int p = 0;
     ASSUME(isnew[i] <= 1 && unlinkfail[i] <= 1);
     ASSUME(namec[i] != 0 && namec[i] != ':' && namec[i] != '/');
-    ASSUME(sized[i][0] <= 9 && sized[i][1] <= 9 && sized[i][2] <= 9);
     fn[i][p++] = isnew[i] ? 'n' : 'c'; fn[i][p++] = isnew[i] ? 'e' : 'u'; fn[i][p++] = isnew[i] ? 'w' : 'r'; fn[i][p++] = '/';
     fn[i][p++] = (char) namec[i]; fn[i][p++] = (char) ('a' + i);
     if (!isnew[i]) { fn[i][p++] = ':'; fn[i][p++] = '2'; fn[i][p++] = ','; fn[i][p++] = 'S'; }
     fn[i][p] = 0;
-    mtab[i].fn = fn[i]; mtab[i].flagdeleted = 0;
-    mtab[i].size = sized[i][0] * 100u + sized[i][1] * 10u + sized[i][2];
+    ASSUME(del0[i] <= 1);
+    mtab[i].fn = fn[i]; mtab[i].flagdeleted = del0[i]; del[i] = del0[i];
+    mtab[i].size = i ? SZ1 : SZ0;
   }
+  ASSUME(!(unlinkfail[0] && unlinkfail[1]));      /* at most one failing unlink (reply buffer sizing) */
   m = mtab; numm = NM;
+  ASSUME(last0 <= NM); last = last0;
   for (k = 0; k < K; ++k) {
     ASSUME(verb[k] < NVERB && openfail[k] <= 1);
-    for (i = 0; i < AL; ++i) argbuf[k][i] = (char) args[k][i];
+    for (i = 0; i < AL; ++i) argbuf[k][i] = (char) args[k * AL + i];
     argbuf[k][AL] = 0;
     ASSUME(arg_in_scope(argbuf[k]));
   }
